@@ -4,6 +4,9 @@ import Apko.Proofs.Lemmas.Conflict
 import Apko.Proofs.Lemmas.ConflictSort
 import Apko.Proofs.Lemmas.ConflictInv
 import Apko.Proofs.Lemmas.ConflictRefine
+import Apko.Proofs.Lemmas.ConflictRec
+import Apko.Proofs.Lemmas.ConflictLost
+import Apko.Proofs.Lemmas.ConflictLostWitness
 /-!
 # C07 — file conflicts follow the replaces/origin rules; the installed db tells the truth
 
@@ -306,6 +309,112 @@ theorem idb_truth_partial (c : Cfg) (hc : c.spec = false) (base : List Entry) (p
 
 example : WF { name := "usr/bin/x".toList, kind := .reg } := by
   intro _; decide
+
+/-! ## the record tells the truth about content, permission bits — and not about owners (F07e, F07f) -/
+
+/-- the regular-file names of one package are distinct (`lazilyInstallAPKFiles` refuses a data section
+that names a file twice: second statement of `tie_stmtsLazyLoop`) -/
+def UniqueRegNames (p : Pkg) : Prop :=
+  ∀ e1 ∈ p.entries, ∀ e2 ∈ p.entries, e1.kind = .reg → e2.kind = .reg → e1.name = e2.name → e1 = e2
+
+theorem getD_mem_or_default (pkgs : List Pkg) (i : Nat) : pkgs.getD i default ∈ pkgs ∨ pkgs.getD i default = default := by
+  cases h : pkgs[i]? with
+  | none => right; simp [List.getD, h]
+  | some p => left; simp only [List.getD, h, Option.getD_some]; exact List.mem_of_getElem? h
+
+/-- **recorded_file_truth** (content, permission bits and the single recorder, for regular files): after a
+successful Impl run that raised only flags of the classes F07b / F07h / F07i, a regular-file header `e`
+that survives the pruning in package `i`'s record and whose name `installedFiles` knows is recorded by
+the owner only (`i = j`), and the tree holds, at that path, exactly the node written from `e`: content
+`e.sum` (the `Z:` line), permission bits `e.mode % 512` (the `a:` line).  The owner (uid/gid) of the
+node is NOT the recorded one: `recorded_owner_iff`, `recorded_owner_fails` (F07e). -/
+theorem recorded_file_truth (c : Cfg) (hc : c.spec = false) (base : List Entry) (pkgs : List Pkg)
+    (st : St) (all : List (List Entry)) (hwf : ∀ p ∈ pkgs, ∀ e ∈ p.entries, WF e)
+    (huniq : ∀ p ∈ pkgs, UniqueRegNames p)
+    (h : installAll c base pkgs = .ok (st, all)) (hfl : Benign st.flags)
+    (i j : Nat) (rec : List Entry) (e : Entry)
+    (hr : (recordAll st.inst all)[i]? = some rec) (he : e ∈ rec) (hk : e.kind = .reg)
+    (ho : st.inst.lookup e.name = some j) :
+    i = j ∧ lookupT st.tree (parts e.name) = some (.file e.sum (e.mode % 512) (some i) (e.size == 0)) := by
+  have hij := idb_unique st.inst all i j rec e hr he ho
+  subst hij
+  refine ⟨rfl, ?_⟩
+  unfold installAll at h
+  obtain ⟨hfin, x, hx, hI⟩ := installFrom_rec c hc pkgs pkgs 0 _ _ st all h rfl rfl hwf (by intro k fs hk; simp at hk)
+  have hx0 : Benign x := by
+    have : st.flags = x := by simpa using hx
+    exact this ▸ hfl
+  have hrec : RecInv pkgs st := hI hx0 (by intro name j hl; simp at hl)
+  obtain ⟨_, e2, hm2, hn2, hk2, ht⟩ := hrec e.name i ho
+  -- `e` itself is a header of package `i`
+  rw [recordAll_getElem?] at hr
+  cases ha : all[i]? with
+  | none => simp [ha] at hr
+  | some files =>
+    simp only [ha, Option.map_some, Option.some.injEq] at hr
+    subst hr
+    have hef : e ∈ files := (List.mem_filter.1 he).1
+    have hm1 := hfin i files ha e hef
+    have hu : UniqueRegNames (pkgs.getD i default) := by
+      rcases getD_mem_or_default pkgs i with hmem | hd
+      · exact huniq _ hmem
+      · rw [hd] at hm1; cases hm1
+    have : e2 = e := hu e2 hm2 e hm1 hk2 hk hn2
+    subst this
+    exact ht
+
+example : UniqueRegNames { name := ['a'], entries := [{ name := "usr/".toList, kind := .dir }, { name := "usr/x".toList, kind := .reg }] } := by
+  intro e1 h1 e2 h2 k1 k2 _
+  simp only [List.mem_cons, List.not_mem_nil, or_false] at h1 h2
+  rcases h1 with rfl | rfl <;> rcases h2 with rfl | rfl <;> first | rfl | exact absurd k1 (by decide) | exact absurd k2 (by decide)
+
+/-- the exact side condition for owners: the installed node of a record carries the recorded uid/gid
+iff the record says 0:0 (no backend applies a header's owner: `tie_installChownCalls`) -/
+theorem recorded_owner_iff (n : Node) (e : Entry) : (e.uid, e.gid) = nodeOwner n ↔ e.uid = 0 ∧ e.gid = 0 := by
+  simp [nodeOwner]
+
+/-- F07e: a file shipped as 100:101 below a directory shipped as 100:101 -/
+def witnessE : List Pkg :=
+  [{ name := ['a'], origin := "oa".toList, entries :=
+      [{ name := "var/".toList, kind := .dir, mode := 0o750, uid := 100, gid := 101 },
+       { name := "var/x".toList, kind := .reg, mode := 0o644, uid := 100, gid := 101, sum := ['1'] }] }]
+
+/-- some record of the run carries an owner its installed node does not have -/
+def ownerLie (r : Except (Outcome × List Flag) (St × List (List Entry))) : Bool :=
+  match r with
+  | .ok (st, all) => decide (st.flags = []) &&
+      (recordAll st.inst all).any fun rec => rec.any fun e =>
+        match lookupT st.tree (parts e.name) with
+        | some n => decide ((e.uid, e.gid) ≠ nodeOwner n)
+        | none => false
+  | .error _ => false
+
+/-- **F07e**, kernel-checked on every backend: the run succeeds without a flag, the record says 100:101
+(`M:` / `a:` lines), the nodes are 0:0 -/
+theorem recorded_owner_fails (b : Backend) : ownerLie (installAll { backend := b } [] witnessE) = true := by
+  cases b <;> decide
+
+/-- F07f: two packages ship `var/`, the first as 0755, the second as 0700 -/
+def witnessF : List Pkg :=
+  [{ name := ['a'], origin := "oa".toList, entries :=
+      [{ name := "var/".toList, kind := .dir, mode := 0o755 }, { name := "var/x".toList, kind := .reg, sum := ['1'] }] },
+   { name := ['b'], origin := "ob".toList, entries :=
+      [{ name := "var/".toList, kind := .dir, mode := 0o700 }, { name := "var/y".toList, kind := .reg, sum := ['1'] }] }]
+
+/-- some directory record of the run carries permission bits its installed directory does not have -/
+def dirModeLie (r : Except (Outcome × List Flag) (St × List (List Entry))) : Bool :=
+  match r with
+  | .ok (st, all) => decide (st.flags = []) &&
+      (recordAll st.inst all).any fun rec => rec.any fun e =>
+        e.kind == .dir &&
+        match lookupT st.tree (parts e.name) with
+        | some (.dir perm) => decide (perm ≠ e.mode % 512)
+        | _ => false
+  | .error _ => false
+
+/-- **F07f**, kernel-checked on every backend: `var` keeps 0755, `b` records `M:0:0:0700` -/
+theorem recorded_dir_mode_fails (b : Backend) : dirModeLie (installAll { backend := b } [] witnessF) = true := by
+  cases b <;> decide
 
 /-! ## impl_refines_spec: without a ghost flag the code does what the rule table says -/
 
